@@ -74,6 +74,7 @@ class Pair:
         self.qscale = sr.barrier_scale(P)
         self.N = len(P.Ninteract)
         self.vac = P.vacancy if P.vacancy >= 0 else None
+        self.transitions_raised = False
 
     def compare(self, what, J=None):
         mon, P = self.mon, self.P
@@ -103,8 +104,12 @@ class Pair:
         J = self.J if J is None else J
         occ = np.asarray(P.occ)
         info = lambda: '%s transitions after %s occ=%s' % (self.desc, what, occ.tolist())
+        if self.transitions_raised:
+            return  # already reported for this sampler (a failing compilation is retried, slowly, on every call)
         with mon.guard('C35:transitions'):
+            self.transitions_raised = True
             ij, Q, dx = J.transitions()
+            self.transitions_raised = False
             ij, Q, dx = np.array(ij), np.array(Q), np.array(dx)
             if P.jumps is None:
                 mon.check(ij.shape == (0, 2) and Q.shape == (0,), 'C35:transitions', lambda: 'no jump network but %s | %s' % (ij.shape, info()))
@@ -267,6 +272,7 @@ def one_workload(mon, rng, which, cfg, variant, length, mode):
     if S.Nsites <= 6 and rng.uniform() < 0.7:
         mon.count('exhaustive_histories')
         for occ in S.all_occ(vac):
+            if len(mon.viol) >= 25: break
             pair.start(occ, 'exhaustive start')
             for i in [int(x) for x in free if occ[x] == 0]:
                 for j in [int(x) for x in free if occ[x] == 1]:
@@ -274,6 +280,7 @@ def one_workload(mon, rng, which, cfg, variant, length, mode):
                     pair.swap(j, i, 'exhaustive back')
     old = None
     for step in range(length):
+        if len(mon.viol) >= 25: break  # the report is full
         what = 'history step %d' % step
         occd, unoc = sorted(pair.P.occupied_set), sorted(pair.P.unoccupied_set)
         r = rng.uniform()
